@@ -450,6 +450,24 @@ def has_nested_history(root):
     return False
 
 
+def has_nested_targetless_pair(root):
+    """two transitions with nested sources of which at least one has no target (so that their exit sets cannot
+    intersect), separated by a parallel state: the Recommendation may take both (they serve different regions),
+    the transpilers' conflict relation declares transitions with nested sources conflicting"""
+    root.link()
+    for s2 in root.walk():
+        if not s2.trans: continue
+        for s1 in s2.descendants():
+            if s1 is s2 or not s1.trans: continue
+            if not any(t.targets is None for t in s1.trans + s2.trans): continue
+            p = s1.parent
+            while p is not None:
+                if p.kind == "parallel": return True
+                if p is s2: break
+                p = p.parent
+    return False
+
+
 # ------------------------------------------------------------------------------- invalid documents
 def invalidate(rng, root, n=1):
     """apply n random structural corruptions (dangling target, initial outside, history without /
